@@ -89,6 +89,42 @@ func vh_C03_L1_decode_each_chunk_type() {
 	}
 }
 
+// C03.L1c: the two 16-bit counts of a SACK (gap blocks, duplicate TSNs) at the edges of their
+// range. The arbitrary-buffer obligations above keep both counts below 6 (the decoder
+// allocates from them before it checks them, every value would be a path of its own); here
+// they are taken from a set that contains every pair whose sum, or whose size in bytes,
+// wraps in 16 bits (0x8000+0x8000, 0xffff+1, 0xc000+0x4000, 4*0x4000, ...), with the rest of
+// the chunk arbitrary and a value of 12..24 bytes: no runtime panic, and a SACK is accepted
+// only when it really carries as many blocks as it announces.
+var vSackEdgeCounts = []uint16{0, 1, 2, 3, 0x3fff, 0x4000, 0x4001, 0x4002, 0x7fff, 0x8000, 0x8001, 0xbfff, 0xc000, 0xfffd, 0xfffe, 0xffff}
+
+func vh_C03_L1_sack_counts_at_the_edges() {
+	g := vSackEdgeCounts[vPick(len(vSackEdgeCounts))]
+	d := vSackEdgeCounts[vPick(len(vSackEdgeCounts))]
+	vl := 12 + 4*vPick(4)
+	n := packetHeaderSize + chunkHeaderSize + vl
+	raw := nondetBytes(n)
+	raw[12] = byte(ctSack)
+	raw[14], raw[15] = 0, byte(chunkHeaderSize+vl)
+	raw[24], raw[25] = byte(g>>8), byte(g)
+	raw[26], raw[27] = byte(d>>8), byte(d)
+	vFixChecksum(raw)
+	p := &packet{}
+	vMustNotBlock("decoding an inbound packet returns (no input makes a decoder loop for ever)")
+	err := p.unmarshal(false, raw)
+	vMayBlock()
+	if err == nil {
+		vassert(len(p.chunks) == 1, "one chunk")
+		sack, ok := p.chunks[0].(*chunkSelectiveAck)
+		vassert(ok, "a SACK")
+		vassert(len(sack.gapAckBlocks) == int(g) && len(sack.duplicateTSN) == int(d), "the decoded lists have the announced lengths")
+		vassert(12+4*(int(g)+int(d)) == vl, "a SACK is accepted only when its length matches the counts it announces")
+		vcover("accepted")
+	} else {
+		vcover("rejected")
+	}
+}
+
 // C03.L2: an arbitrary byte string (valid checksum, bounded length) delivered through
 // handleInbound to an association in any of its 8 states, with one chunk in flight and
 // one message held for reading: no runtime panic, the read loop is told to stop only by
@@ -265,3 +301,12 @@ func vh_C03_L7_far_forward_tsn_is_bounded_work() {
 	vassert(a.payloadQueue.size() == 0, "nothing below it stays tracked")
 	vcover("end")
 }
+
+// C03.L8: inbound sequence numbers from the far side of a wrap, or beyond the window, cannot
+// corrupt the receiver: a forward-TSN whose stream entry is stale (behind the delivery point
+// in serial arithmetic, e.g. 65535 when the stream is at 2) never moves the delivery point
+// back and never wedges the stream (= C07.L3); a DATA chunk that is dropped because its TSN
+// lies outside the window is never marked as received (= C01.L4), so it is never
+// acknowledged without having been stored.
+func vh_C03_L8_stale_stream_sequence_cannot_wedge_a_stream() { vh_C07_L3_receiver_skip_exact() }
+func vh_C03_L8_dropped_chunk_is_never_marked_received()      { vh_C01_L4_duplicate_suppression() }
